@@ -369,7 +369,10 @@ def gen_unknown(ch):
         u = ch.choice([i for i in UNDEFINED_S if i not in rt.D])
     else:
         u = ch.choice([i for i in UNDEFINED_E if i not in rt.B])
-    shape = ch.choice(['top', 'fixed_rep', 'delayed_rep', 'after_rep', 'in_221', 'nested_rep', 'in_sequence_position'])
+    shape = ch.choice(['top', 'fixed_rep', 'delayed_rep', 'after_rep', 'in_221', 'nested_rep', 'in_sequence_position',
+                       'replication_factor'])
+    if shape == 'replication_factor' and is_seq:
+        shape = 'top'
     pre = plain(ch.int(0, 3))
     post = plain(ch.int(0, 2))
     if shape == 'top':
@@ -394,6 +397,11 @@ def gen_unknown(ch):
         b = plain(ch.int(0, 2))
         valid = pre + [221000 + len(a)] + a if a else pre
         ids = pre + [221000 + len(a) + 1 + len(b)] + a + [u] + b + post
+    elif shape == 'replication_factor':
+        # the unknown element stands where the class-31 factor of a delayed replication is expected
+        a = plain(ch.int(1, 2))
+        valid = pre
+        ids = pre + [100000 + len(a) * 1000, u] + a + post
     elif shape == 'nested_rep':
         a = plain(ch.int(0, 2))
         valid = pre + a
@@ -531,7 +539,7 @@ def run(tier, seed):
                 'all local tables; thorough: all) against a direct expansion of the JSON files by the reference model; every cell '
                 'of a table-selection grid incl. unbundled numbers/versions/centres; random: well-formed descriptor lists '
                 '(nesting <= 4, X <= 63, twin replications differing deep inside, undefined ids), messages with a descriptor that '
-                'is in no table at 7 placements x plain/compiled decoder, messages decoded under fall-back selections.  '
+                'is in no table at 8 placements x plain/compiled decoder, messages decoded under fall-back selections.  '
                 'Non-trivial = a sequence holding a sequence or replication / a list with nested replication / an unknown '
                 'descriptor not at top level.')
     rep.assumptions = ['FM-94 counting rule as refbufr.tree implements it (1XXYYY owns its factor and the next X raw descriptors)',
@@ -580,7 +588,7 @@ def run(tier, seed):
     n = 400 if tier == 'quick' else 8000
     runner.run_generated(rep, gen_fallback, check_fallback, n, workers, stage='fallback decode')
     rep.required_classes = ['list_nesting_4', 'list_with_undefined_id', 'list_X_ge_40', 'unknown_in_221', 'unknown_fixed_rep',
-                            'unknown_delayed_rep', 'unknown_after_rep', 'unknown_nested_rep', 'unknown_sequence',
+                            'unknown_delayed_rep', 'unknown_after_rep', 'unknown_nested_rep', 'unknown_sequence', 'unknown_replication_factor',
                             'selection_cell', 'table_d_entries']
     return rep.finish()
 
